@@ -30,3 +30,4 @@ def run(prog, chk):
     C.clear_resets(prog, chk, "C05.j", tuple(C.NODE))
     # a node linked with a wrong back pointer is later unlinked wrongly: its slot is recycled while still reachable, two elements share an address
     C.link_idiom(prog, chk, "C05.k", tuple(C.NODE))
+    C.self_assign_noop(prog, chk, "C05.l")
